@@ -146,6 +146,62 @@ def fresh_interpreters(run, root, n, ref):
                        "what": "each run in a new interpreter with its own PYTHONHASHSEED (202, 303)"})
 
 
+def computer_state_does_not_leak(run, root):
+    """Worker-count independence with a STATEFUL computer: each process keeps one computer for all its utterances, so with
+    0 / 1 / 2 / 3 workers different utterances share a computer.  A short-integration computer, and an utterance too short
+    to yield a frame in front of ordinary ones; every stored matrix is what a computer of its own computes."""
+    import torch
+    from pydrobert.speech import compute, alias
+    d = os.path.join(root, "si")
+    os.makedirs(os.path.join(d, "raw"))
+    rng_ = np.random.RandomState(12345)
+    cfg = {"name": "si", "bank": {"name": "gabor", "scaling_function": "mel"}, "frame_shift_ms": 10}  # (default bank: the filters reach 190 samples, the shift is 160)
+    with open(os.path.join(d, "comp.json"), "w") as f:
+        json.dump(cfg, f)
+    sigs, lines = {}, []
+    for k, n in enumerate((2000, 20, 2400, 7, 1700, 31, 900)):
+        u = "s%d" % k
+        x = (rng_.randn(n) * 100).astype(np.float32)
+        p = os.path.join(d, "raw", u + ".npy")
+        np.save(p, x)
+        sigs[u] = x
+        lines.append("%s %s" % (u, p))
+    with open(os.path.join(d, "map"), "w") as f:
+        f.write("\n".join(lines) + "\n")
+    want = {}
+    for u, x in sigs.items():
+        comp = alias.alias_factory_subclass_from_arg(compute.FrameComputer, json.loads(json.dumps(cfg)))
+        want[u] = comp.compute_full(x.astype(np.float64)).astype(np.float32)
+    for workers in (0, 1, 2, 3):
+        out = os.path.join(d, "out_w%d" % workers)
+        sys.stdout.flush()
+        pid = os.fork()
+        if pid == 0:
+            code = 99
+            try:
+                devnull = os.open(os.devnull, os.O_WRONLY)
+                os.dup2(devnull, 2)
+                os.environ.pop("PYDROBERT_SPEECH_VERIF_CRASH", None)
+                os.environ.pop("PYDROBERT_SPEECH_VERIF_TRACE", None)
+                from pydrobert.speech import command_line as cl
+                code = cl.signals_to_torch_feat_dir([os.path.join(d, "map"), os.path.join(d, "comp.json"), out, "--num-workers=%d" % workers]) or 0
+            except BaseException:
+                code = 98
+            finally:
+                os._exit(code)
+        _, st = os.waitpid(pid, 0)
+        run.evaluations += 1
+        if not (os.WIFEXITED(st) and os.WEXITSTATUS(st) == 0):
+            run.violation({"kind": "clean_run_failed", "status": st, "workers": workers, "computer": "si"})
+            continue
+        for u in sigs:
+            t = load_tensor(os.path.join(out, u + ".pt"))
+            if t is None or tuple(t.shape) != want[u].shape or not np.allclose(t.numpy(), want[u], rtol=2e-4, atol=2e-4):
+                run.violation({"kind": "output_depends_on_num_workers", "workers": workers, "computer": "si", "utt": u, "samples": len(sigs[u]),
+                               "what": "stored features differ from those of a computer of its own (state left by an earlier utterance of the same process)"})
+                break
+
+
 def load_tensor(path):
     import torch
     try:
@@ -373,6 +429,7 @@ def run(tier, seed):
                     run.violation({"kind": "resumed_directory_differs_from_uninterrupted_run", "seed": sd, "files": fl,
                                    "schedule": ["after_manifest_print:1:hard"], "workers": "0 then 2"})
         fresh_interpreters(run, root, n, ref)
+        computer_state_does_not_leak(run, root)
         kinds = [("before_save", "hard"), ("before_save", "mid"), ("before_save", "soft"), ("after_save", "hard"), ("after_save", "soft"),
                  ("after_manifest_print", "hard"), ("after_manifest_print", "soft")]
         schedules = []
